@@ -5,6 +5,8 @@ Import ListNotations.
 Require Import PV.Comb.PState PV.Comb.Bytes PV.Comb.Utf8 PV.Comb.Utf8b.
 Require Import PV.Json.Rfc8259 PV.Json.Recogniser PV.Json.Utf8Facts PV.Json.RfcLexical.
 
+Ltac blia := unfold byte in *; lia.
+
 (* ---- one char ---- *)
 Lemma decode_strict_sound l c n : decode_strict l = Some (c, n) -> scalar c /\ n = length (encode c) /\ exists r, l = encode c ++ r.
 Proof.
@@ -133,28 +135,28 @@ Proof.
   induction 1 as [|c r Hc Hr IH]; intros f rest Hf.
   - destruct f as [|f]; [lia|]. cbn [app length scan_inner scan_plain].
     rewrite (plain_char_head 34 rest) by reflexivity. rewrite skipn_O. unfold scan_escape. rewrite head_is_cons. reflexivity.
-  - rewrite app_length in Hf. destruct (jchar_cases c Hc) as [(x & S & U & ->)|(t & -> & H2 & He)].
+  - rewrite app_length in Hf. destruct (jchar_cases c Hc) as [(x & Sx & U & ->)|(t & -> & H2 & He)].
     + destruct f as [|f]; [lia|]. rewrite <- app_assoc.
-      rewrite (scan_inner_plain_step f _ _ (plain_char_complete x _ S U)), skipn_app_exact. Show. rewrite IH by lia. now rewrite app_length.
+      rewrite (scan_inner_plain_step f _ _ (plain_char_complete x _ Sx U)), skipn_app_exact. rewrite IH. 2: blia. now rewrite app_length.
     + destruct f as [|f]; [lia|]. rewrite <- app_assoc. cbn [scan_inner]. cbn [app]. cbn [length scan_plain].
       rewrite (plain_char_head 92 _) by reflexivity. rewrite skipn_O. change (92%N :: t ++ r ++ 34%N :: rest) with ((92%N :: t) ++ r ++ 34%N :: rest).
-      rewrite He. cbn [Nat.add]. rewrite skipn_app_exact, IH by lia. rewrite app_length. lia.
+      rewrite He. cbn [Nat.add]. rewrite skipn_app_exact, IH by blia. rewrite app_length. cbn [length] in *. blia.
 Qed.
 
 (* ---- string ---- *)
 Lemma scan_string_sound l n : scan_string l = Some n -> exists s r, split_at l n s r /\ jstring s.
 Proof.
   unfold scan_string. destruct (head_is 34 l) eqn:Q; [|discriminate]. destruct (head_is_true _ _ Q) as [t ->]. cbn [List.tl].
-  destruct (scan_inner_sound (length (34%N :: t)) t) as (s & r & Sp & J). cbn [Nat.add]. rewrite skipn_cons, (split_skipn _ _ _ _ Sp).
+  remember (length (_ :: t)) as f eqn:Hf. clear Hf. destruct (scan_inner_sound f t) as (s & r & Sp & J). cbn [Nat.add]. rewrite skipn_cons, (split_skipn _ _ _ _ Sp).
   destruct (head_is 34 r) eqn:Q2; [|discriminate]. destruct (head_is_true _ _ Q2) as [r' ->]. intros [= <-].
   exists (34%N :: s ++ [34%N]), r'. split; [|exists s; split; [reflexivity|exact J]].
-  destruct Sp as [-> <-]. split; [cbn; now rewrite <- app_assoc|cbn; rewrite app_length; cbn; lia].
+  destruct Sp as [E L]. rewrite <- L. split; [rewrite E; cbn [app]; now rewrite <- app_assoc|cbn [length]; rewrite app_length; cbn [length]; lia].
 Qed.
 Lemma scan_string_complete s tl : jstring s -> scan_string (s ++ tl) = Some (length s).
 Proof.
   intros (body & -> & J). unfold scan_string. cbn [app]. rewrite head_is_cons, N.eqb_refl. cbn [List.tl]. rewrite <- app_assoc. cbn [app].
-  rewrite (scan_inner_complete body J) by (cbn [length]; rewrite app_length; cbn; lia).
-  cbn [Nat.add]. rewrite skipn_cons, skipn_app_exact, head_is_cons, N.eqb_refl. cbn [length]. rewrite app_length. cbn [length]. f_equal. lia.
+  rewrite (scan_inner_complete body J). 2: { cbn [length]. rewrite app_length. cbn [length]. blia. }
+  cbn [Nat.add]. rewrite skipn_cons, skipn_app_exact, head_is_cons, N.eqb_refl. cbn [length]. rewrite app_length. cbn [length]. f_equal; blia.
 Qed.
 Lemma jstring_head s : jstring s -> exists t, s = 34%N :: t.
 Proof. intros (body & -> & _). eexists. reflexivity. Qed.
